@@ -81,6 +81,9 @@ func PathString(t *rapid.T, intent int, hostile bool) string {
 		}
 	}
 	n := rapid.IntRange(0, 4).Draw(t, "nelem")
+	if Chance(t, 3, "manyelems") {
+		n = rapid.IntRange(20, 60).Draw(t, "nelem2")
+	}
 	if intent != 0 && n == 0 {
 		n = 1
 	}
@@ -89,7 +92,11 @@ func PathString(t *rapid.T, intent int, hostile bool) string {
 		if hostile && rapid.IntRange(0, 2).Draw(t, "eh") == 0 {
 			h = 1
 		}
-		elems = append(elems, PathElem(t, h, "e"))
+		el := PathElem(t, h, "e")
+		if Chance(t, 2, "longelem") {
+			el += strings.Repeat("x", rapid.IntRange(100, 600).Draw(t, "elemlen"))
+		}
+		elems = append(elems, el)
 	}
 	if gopkg {
 		elems = append(elems, pick(t, gopkgTails, "gtail"))
